@@ -173,6 +173,28 @@ def option_vec(chk, prog):
                         ok_c = True
                 chk.ob("R3.vec", fb_, f"the map closure calls {meth} on the element", ok_c, "")
 
+NUMERIC = ["u8", "u16", "u32", "u64", "u128", "usize", "i8", "i16", "i32", "i64", "i128", "isize", "f32", "f64"]
+
+
+def primitives(chk, prog):
+    """R1: the primitive conversions are unconditional: a number is always Value::Number(self as f64), a bool Value::Bool, a string
+    Value::String — on every path (a branch that maps some values elsewhere, e.g. non-finite floats to Null, breaks the round trip for
+    exactly those values)."""
+    n = 0
+    for ty in NUMERIC + ["bool", "std::string::String", "&str"]:
+        fs = [p for p in prog.bodies if p == f"<{ty} as humphrey_json::traits::IntoJson>::to_json"]
+        if not fs:
+            continue
+        n += 1
+        b = prog.bodies[fs[0]]
+        d = core.describe(prog, b, 0)
+        want = "Number" if ty in NUMERIC else ("Bool" if ty == "bool" else "String")
+        ok = d[0] == "variant" and d[1].endswith("value::Value") and d[2] == want and core.desc_contains(d[3][0], lambda y: y[0] == "param" and y[1] == 1) and \
+            not any(t["k"] == "switch" for t in (b.term(i) for i in range(len(b.blocks))) if t)
+        chk.ob("R1.primitives", fs[0], f"{ty} -> Value::{want}(self) unconditionally", ok, f"to_json yields {core.short(str(d))[:120]}")
+    chk.floor("primitive IntoJson impls", n, 10)
+
+
 def run(chk):
     prog = chk.use(core.load("A", fresh=(chk.tier == "thorough")))
     chk.explanation = (
@@ -185,5 +207,6 @@ def run(chk):
     chk.not_decided = "numeric `as` casts (lossy by design above 2^53); programs outside the generated corpus; run-time equality of the round trip"
     chk.assumptions = ["rustc macro expansion / type checking", "the corpus generator's expected shapes (hv/props/c14_corpus.py) are derived from the literal it prints"]
     macro_rules(chk, prog)
+    primitives(chk, prog)
     option_vec(chk, prog)
     c14_corpus.run(chk)
